@@ -685,6 +685,31 @@ func genProgram(r *rng, kind string, focus string) *program {
 			}
 			p.threads = append(p.threads, ops)
 		}
+	case "sweeps":
+		// cleanup passes that overlap or nest (C06): a warm-up pass that evicts at least two entries, then a batch
+		// of expired entries swept by two passes at once, by a pass whose callback starts another pass (cb 8),
+		// and by explicit deletes racing the passes
+		if !isCache {
+			break
+		}
+		p.cb = []int{1, 8, 8}[r.intn(3)]
+		p.prefill = nil
+		for i := 0; i < 2+r.intn(2); i++ {
+			p.prefill = append(p.prefill, fmt.Sprintf("set w%d %s 5", i, v()))
+		}
+		p.prefill = append(p.prefill, "tick 6", "deleteexpired")
+		nx := 2 + r.intn(3)
+		for i := 0; i < nx; i++ {
+			p.prefill = append(p.prefill, fmt.Sprintf("set x%d %s 5", i, v()))
+		}
+		p.prefill = append(p.prefill, "tick 6")
+		p.threads = [][]string{{"deleteexpired"}}
+		if r.chance(2, 3) {
+			p.threads = append(p.threads, []string{"deleteexpired"})
+		}
+		if r.chance(1, 3) {
+			p.threads = append(p.threads, []string{[]string{"delete", "getanddelete"}[r.intn(2)] + fmt.Sprintf(" x%d", r.intn(nx))})
+		}
 	case "lazy":
 		// every key is expired-but-uncleaned when the concurrent phase starts: lazy deletion on read and
 		// DeleteExpired race writers that store fresh values
@@ -1285,6 +1310,35 @@ func (o *outcome) monitors() []string {
 						strings.Contains(f, " "+p[1]+":"+p[2]+"]") || strings.Contains(f, "["+p[1]+":"+p[2]+"]") {
 						bad = append(bad, "CALLBACK: fired for a value that is still retrievable: "+c)
 					}
+				}
+			}
+		}
+	}
+	// cleanup passes (C06, programs of focus=sweeps: a `deleteexpired` in the prefill): every entry stored after
+	// the warm-up pass has expired before the threads start, nobody overwrites it, and every thread that sweeps
+	// or deletes runs to completion: each of them must have been reported to the callback exactly once
+	if isCache && o.prog.cb != 0 && o.problem == "" {
+		last := -1
+		for i, l := range o.prog.prefill {
+			if l == "deleteexpired" {
+				last = i
+			}
+		}
+		if last >= 0 {
+			for _, l := range o.prog.prefill[last+1:] {
+				f := strings.Fields(l)
+				if f[0] != "set" {
+					continue
+				}
+				want := fmt.Sprintf("%d:%s:%s", o.prog.cb, f[1], f[2])
+				n := 0
+				for _, c := range o.cbLedger {
+					if c == want {
+						n++
+					}
+				}
+				if n == 0 {
+					bad = append(bad, "CALLBACK: entry removed by a cleanup pass was never reported: "+want+" (ledger "+strings.Join(o.cbLedger, " ")+")")
 				}
 			}
 		}
